@@ -103,6 +103,8 @@ class Peer:
             self.rx_err = "close"
         elif name == "twoframes":          # a good frame followed by a second one in the same read
             self.q.append([now, a["full"] + a["exc"]])
+        elif name == "wrongthenown":       # a short frame of another unit, then the own (exception) reply, in one burst
+            self.q.append([now, a["wrong_short"] + a["exc"]])
         elif name == "twobad":             # a good frame followed by one the decoder rejects
             self.q.append([now, a["full"] + a["bad"]])
         else:
@@ -130,7 +132,7 @@ class Peer:
 
     def take(self, n):
         out = b""
-        for item in self.q:
+        for item in sorted(self.q, key=lambda x: x[0]):      # bytes are delivered in the order they arrived
             if item[0] <= self.clock.t and len(out) < n:
                 k = n - len(out)
                 out += item[1][:k]
@@ -192,7 +194,7 @@ class FakeSock:
             raise ConnectionRefusedError(111, "scripted")
         if not p.wait_readable(self.timeout):
             raise socket.timeout("timed out")
-        for item in p.q:
+        for item in sorted(p.q, key=lambda x: x[0]):
             if item[0] <= p.clock.t:
                 p.q.remove(item)
                 return item[1][:n], ("127.0.0.1", 502)
@@ -263,6 +265,7 @@ def request_table():
         ("read_coils", lambda: br.ReadCoilsRequest(1, 10)),
         ("read_discrete", lambda: br.ReadDiscreteInputsRequest(0, 17)),
         ("read_holding", lambda: rr.ReadHoldingRegistersRequest(2, 3)),
+        ("read_holding_big", lambda: rr.ReadHoldingRegistersRequest(0, 20)),
         ("read_input", lambda: rr.ReadInputRegistersRequest(0, 1)),
         ("write_coil", lambda: bw.WriteSingleCoilRequest(3, True)),
         ("write_coils", lambda: bw.WriteMultipleCoilsRequest(1, [True, False, True, True, False, True, False, False, True])),
@@ -540,6 +543,7 @@ class Rig:
                 else bf.buildPacket(RawMsg(tid, unit, other_pdu(fc))),
                 "stale_fc": bf.buildPacket(RawMsg(tid, unit, other_pdu(fc))),
                 "bad": bf.buildPacket(RawMsg(tid, unit, b"\x60\x01")),
+                "wrong_short": bf.buildPacket(RawMsg(tid, wu, other_pdu(fc))),
             }
         self.peer.reply_for = reply_for
         self.last_full_frame = reply_for(b"\0\0")["full"]
@@ -647,7 +651,7 @@ def cresult(r):
     return "RStuck"          # hang / foreign object: never equal to a model result, never accepted by an oracle
 
 
-BEH = {"full": "BFull", "exc": "BExc", "nothing": "BNothing", "partial": "BPartial", "garbage": "BGarbage",
+BEH = {"wrongthenown": "BWrongThenOwn", "full": "BFull", "exc": "BExc", "nothing": "BNothing", "partial": "BPartial", "garbage": "BGarbage",
        "wrongunit": "BWrongUnit", "stale": "BStale", "late": "BLate", "oserror": "BOSError", "close": "BClose"}
 
 
